@@ -586,4 +586,139 @@ theorem missing_close_bracket_sizeof (name : String) (hn : IsMemberName name) (u
   simp only [memberAfterEquals, lit_skip_blank, e1, lit_sizeof, lit_lpar, h1, lit_comma, propertyName_skip_blank, h2, hrp, bind,
     Option.bind]
 
+/-! ### a comment on the same line as code (operators `join-lines` / `join-lines-flush` on a code line followed by a comment line) -/
+
+/-- what follows the code when the line end before a comment line is lost: blanks or tabs (the indentation of the
+    comment line, if it was kept), then `#` and the rest of the comment -/
+def CommentTail (tail : Chars) : Prop := ∃ ws r, tail = ws ++ '#' :: r ∧ ws.all isWs = true
+
+theorem skipWs_ws_append : ∀ (ws : Chars) (c : Char) (r : Chars), ws.all isWs = true → isWs c = false →
+    skipWs (ws ++ c :: r) = c :: r := by
+  intro ws
+  induction ws with
+  | nil => intro c r _ hc; exact skipWs_cons_of_not_ws c r hc
+  | cons a rest ih =>
+    intro c r hall hc
+    simp only [List.all_cons, Bool.and_eq_true] at hall
+    have := ih c r hall.2 hc
+    simp only [skipWs] at this ⊢
+    simp only [List.cons_append, List.dropWhile, hall.1, this]
+
+theorem commentTail_skip (tail : Chars) (h : CommentTail tail) : ∃ r, skipWs tail = '#' :: r := by
+  obtain ⟨ws, r, rfl, hws⟩ := h
+  exact ⟨r, skipWs_ws_append ws '#' r hws (by decide)⟩
+
+theorem atEol_commentTail (tail : Chars) (h : CommentTail tail) : atEol tail = false := by
+  obtain ⟨r, hr⟩ := commentTail_skip tail h
+  simp [atEol, hr]
+
+theorem lit_commentTail (s : String) (s0 : Char) (srest : Chars) (hs : s.toList = s0 :: srest) (hne : (s0 == '#') = false)
+    (tail : Chars) (h : CommentTail tail) : lit s tail = none := by
+  obtain ⟨r, hr⟩ := commentTail_skip tail h
+  have := lit_none_of_head s s0 srest hs '#' r (by decide) hne
+  simp only [lit, hr] at this ⊢
+  simpa [skipWs, List.dropWhile, isWs] using this
+
+theorem follows_commentTail (P : Char → Bool) (h1 : P '#' = false) (h2 : P ' ' = false) (h3 : P '\t' = false) (tail : Chars)
+    (h : CommentTail tail) : Follows P tail := by
+  obtain ⟨ws, r, rfl, hws⟩ := h
+  intro c hc
+  cases ws with
+  | nil => simp at hc; subst hc; exact h1
+  | cons a rest =>
+    simp at hc
+    subst hc
+    simp only [List.all_cons, Bool.and_eq_true, isWs, Bool.or_eq_true, beq_iff_eq] at hws
+    rcases hws.1 with rfl | rfl
+    · exact h2
+    · exact h3
+
+theorem follows_type_commentTail (tail : Chars) (h : CommentTail tail) : Follows isTypeChar tail :=
+  follows_commentTail _ (by decide) (by decide) (by decide) tail h
+theorem follows_const_commentTail (tail : Chars) (h : CommentTail tail) : Follows isConstChar tail :=
+  follows_commentTail _ (by decide) (by decide) (by decide) tail h
+
+/-- a plain member (any well-formed type, arrays included) with a comment on the same line -/
+theorem member_comment_rejected (name : String) (hn : IsMemberName name) (t : FieldType) (ht : WFType t) (tail : Chars)
+    (h : CommentTail tail) : LineRejected (name.toList ++ ' ' :: '=' :: ' ' :: (t.render.toList ++ tail)) := by
+  apply plain_member_tail_rejected name hn t ht tail (follows_type_commentTail tail h)
+  simp only [optConditionalEol, atEol_commentTail tail h, conditionalExpression,
+    lit_commentTail "if" 'i' _ rfl (by decide) tail h, bind, Option.bind, Bool.false_eq_true, if_false]
+
+/-- an enum header with a comment on the same line -/
+theorem enum_header_comment_rejected (name : Chars) (hn : IsUserTypeName name) (u : Bool) (sz : Nat)
+    (hsz : sz = 1 ∨ sz = 2 ∨ sz = 4 ∨ sz = 8) (tail : Chars) (h : CommentTail tail) :
+    LineRejected (enumLine (name ++ ' ' :: ':' :: ' ' :: ((IntType.shortName ⟨u, sz, none⟩).toList ++ tail))) := by
+  have hscan := userTypeName_with_blank name (' ' :: ':' :: ' ' :: ((IntType.shortName ⟨u, sz, none⟩).toList ++ tail)) hn
+    (follows_blank_type' _)
+  have hint := fixedSizeInteger_shortName u sz hsz tail
+  obtain ⟨a, b, rest, rfl, ha, hb, hrest⟩ := hn
+  apply enum_line_rejected
+  · simp only [enumHeaderRest, hscan, bind, Option.bind, lit_skip_blank, lit_colon, fixedSizeInteger_skip_blank, hint,
+      atEol_commentTail tail h, Bool.false_eq_true, if_false]
+  · exact lit_eq_none_of_upper a _ ha
+
+/-- a struct header (plain) with a comment on the same line -/
+theorem struct_header_comment_rejected (name : Chars) (hn : IsUserTypeName name) (tail : Chars) (h : CommentTail tail) :
+    LineRejected (structLine (name ++ tail)) := by
+  have hs : isWs 's' = false := by decide
+  have hst : lit "struct" (structLine (name ++ tail)) = some (' ' :: (name ++ tail)) := lit_struct _
+  have hscan := userTypeName_with_blank name tail hn (follows_type_commentTail tail h)
+  have hrest : ∀ d, structHeaderRest d (structLine (name ++ tail)) = none := by
+    intro d
+    simp only [structHeaderRest, hst, hscan, bind, Option.bind, atEol_commentTail tail h, Bool.false_eq_true, if_false]
+  obtain ⟨a, b, rest, hname, ha, hb, hr⟩ := id hn
+  have h2 : lit "=" (' ' :: (name ++ tail)) = none := by rw [hname]; exact lit_eq_none_of_upper a _ ha
+  have e1 : structModifier (structLine (name ++ tail)) = none := structModifier_none_of_head _ _ hs (by decide) (by decide)
+  refine ⟨fun m => ?_, ?_, fun afterAttrs => ?_⟩
+  · cases m
+    · have e2 : lit "import" (structLine (name ++ tail)) = none := lit_none_of_head "import" 'i' _ rfl _ _ hs (by decide)
+      simp only [parseTopLine, e1, e2, hst, hrest]
+    · have e2 : lit "enum" (structLine (name ++ tail)) = none := lit_none_of_head "enum" 'e' _ rfl _ _ hs (by decide)
+      have e3 : lit "@" (structLine (name ++ tail)) = none := lit_none_of_head "@" '@' _ rfl _ _ hs (by decide)
+      simp only [parseTopLine, e2, e3, bind, Option.bind]
+    · simp only [parseTopLine, e1, hst, hrest]
+  · have c1 : constName (structLine (name ++ tail)) = none := constName_none_of_head _ _ hs (by decide)
+    simp only [parseEnumLine, c1, bind, Option.bind]
+  · have c1 : constName (structLine (name ++ tail)) = none := constName_none_of_head _ _ hs (by decide)
+    have c2 := propertyName_struct (name ++ tail)
+    have hne : ("struct" = "inline") = False := by decide
+    cases afterAttrs <;>
+      simp only [parseStructLine, plainMemberRest, c1, c2, h2, hne, bind, Option.bind, Bool.false_eq_true, ↓reduceIte]
+
+/-- an enum value with a comment on the same line -/
+theorem enum_value_comment_rejected (name : String) (hn : IsConstantName name) (n : Nat) (tail : Chars) (h : CommentTail tail) :
+    LineRejected (name.toList ++ ' ' :: '=' :: ' ' :: ((toString n).toList ++ tail)) := by
+  obtain ⟨a, b, rs, heq, hup, hb, hrs⟩ := id hn
+  have hc := constName_append name.toList (' ' :: '=' :: ' ' :: ((toString n).toList ++ tail)) hn (follows_blank_const _)
+  have hnum : number ((toString n).toList ++ tail) = some (n, tail) := by
+    apply number_repr n tail
+    have hf := follows_commentTail (fun c => isDigit c || c == 'x') (by decide) (by decide) (by decide) tail h
+    intro c hc'
+    have := hf c hc'
+    simp only [Bool.or_eq_false_iff, beq_eq_false_iff_ne, ne_eq] at this
+    exact this
+  have hmk : lit "make_const" ((toString n).toList ++ tail) = none := by
+    rw [toString_toList]
+    obtain ⟨c, cs, hd, hdig⟩ := head_toDigits n
+    rw [hd]
+    apply lit_none_of_head "make_const" 'm' _ rfl c _ (not_ws_of_digit hdig)
+    simp only [beq_eq_false_iff_ne, ne_eq]; intro he; subst he; revert hdig; decide
+  refine ⟨fun m => ?_, ?_, fun afterAttrs => ?_⟩
+  · rw [heq]
+    exact parseTopLine_none_of_head m a _ (not_ws_of_upper hup) (beq_false_of_upper _ (by decide) a hup)
+      (beq_false_of_upper _ (by decide) a hup) (beq_false_of_upper _ (by decide) a hup) (beq_false_of_upper _ (by decide) a hup)
+      (beq_false_of_upper _ (by decide) a hup) (beq_false_of_upper _ (by decide) a hup)
+  · simp only [parseEnumLine, hc, bind, Option.bind, lit_skip_blank, lit_eq, number_skip_blank, hnum, atEol_commentTail tail h,
+      Bool.false_eq_true, if_false]
+  · cases afterAttrs
+    · simp only [parseStructLine, Bool.false_eq_true, if_false, hc, constMemberRest, lit_skip_blank, lit_eq, hmk, bind,
+        Option.bind]
+    · have e1 : propertyName (name.toList ++ ' ' :: '=' :: ' ' :: ((toString n).toList ++ tail)) = none := propertyName_none_of_const _ _ hn
+      have e2 : lit "__value__" (name.toList ++ ' ' :: '=' :: ' ' :: ((toString n).toList ++ tail)) = none := by
+        rw [heq]; exact lit_none_of_upper "__value__" '_' _ rfl (by decide) a _ hup
+      have e3 : lit "@" (name.toList ++ ' ' :: '=' :: ' ' :: ((toString n).toList ++ tail)) = none := by
+        rw [heq]; exact lit_none_of_upper "@" '@' _ rfl (by decide) a _ hup
+      simp only [parseStructLine, if_true, e1, e2, e3, bind, Option.bind]
+
 end SymbolVerif.Cats.Parser
